@@ -38,6 +38,7 @@ SUBS = [
     dict(name="awskeys", quick=dict(cases=12000, shards=3), thorough=dict(cases=45000, shards=7)),
     dict(name="readpass", quick=dict(cases=11000, shards=3), thorough=dict(cases=41000, shards=7)),
     dict(name="getopt", quick=dict(cases=40000, shards=3), thorough=dict(cases=150000, shards=7)),
+    dict(name="syslog", quick=dict(cases=400, shards=2), thorough=dict(cases=4000, shards=4)),
     dict(name="jsondeep", quick=dict(cases=40, shards=1), thorough=dict(cases=200, shards=2)),
 ]
 
@@ -49,7 +50,12 @@ def build(B):
     lib = B.build_lib("asan", only=LIBSRC)
     shim = B.compile_c(os.path.join(HERE, "shim.c"), extra_flags=["-DC15_WRAP_FCLOSE"])
     core = B.compile_cxx(os.path.join(HERE, "core.cpp"))
-    return B.link(os.path.join(B.BUILD, "bin", "C15"), [core, shim] + list(lib.values()), libs=["-lrapidcheck"], wraps=["fclose"])
+    b1 = B.link(os.path.join(B.BUILD, "bin", "C15"), [core, shim] + list(lib.values()), libs=["-lrapidcheck"], wraps=["fclose"])
+    # second binary: the real util/warnp.c instead of the silent stubs (sub "syslog")
+    libw = B.build_lib("asan", only=LIBSRC | {"warnp.c"})
+    shimw = B.compile_c(os.path.join(HERE, "shim.c"), extra_flags=["-DC15_WRAP_FCLOSE", "-DC15_REAL_WARNP"])
+    b2 = B.link(os.path.join(B.BUILD, "bin", "C15w"), [core, shimw] + list(libw.values()), libs=["-lrapidcheck"], wraps=["fclose"])
+    return {"default": b1, "syslog": b2}
 
 
 def prebuild(B):
